@@ -1,6 +1,7 @@
-"""IEEE-754 kernel for the two places where real floating point matters (DESIGN 2.2)."""
+"""IEEE-754 kernel for the places where real floating point matters (DESIGN 2.2)."""
 from symex.core import Unsupported
 
 
-def int_truediv(at, bt):
+def int_truediv(a, b):
+    """a / b for ints (at least one symbolic), b != 0"""
     raise Unsupported("int / int through floats (FP kernel not enabled for this harness)")
